@@ -18,6 +18,10 @@ def run(repo, res, tier):
     encrules.rule_level_forwarding(repo, res)
     encrules.rule_align(repo, res)
     tablerules.rule_tb5(repo, res)
+    # the final character sweep asks the grammar object: its answer must not be shared between grammar classes
+    from .. import effects as _eff
+    _eff.rule_shared_class_state(repo, res)
+    _eff.rule_memo(repo, res)
     encrules.rule_w1(repo, res, which=("symbol", "flags"))
     an = langrules.analyse(repo)
     langrules.rule_k1(repo, res, an)
